@@ -313,7 +313,9 @@ func (w *supWorld) finalChecks(end time.Duration) {
 			}
 			void := false
 			for p := inc.parent; p != nil; p = p.parent {
-				if p.failed && p.failedAt <= deadline || p.exited && p.exitAt <= deadline {
+				// a parent that signalled done and returned nil stays in the tree: its children remain
+				// supervised; any other way of ending voids the obligation (the subtree is rebuilt)
+				if p.failed && p.failedAt <= deadline || p.exited && p.exitAt <= deadline && !p.doneOK {
 					void = true
 				}
 			}
